@@ -43,7 +43,7 @@ def run(ctx):
         # (the suites of the slice are those whose outcome depends on an axis value beyond the basics: message sizes
         # on the compression, timeouts on the HTTP version's error mapping)
         missing_v = "1" if "HTTP_VERSION_3" in vers else "3"   # the HTTP version the deep runs leave out
-        thin = ["Basic/**", "Errors/**", "Timeouts/HTTPVersion:%s/**" % missing_v]
+        thin = ["Basic/**", "Errors/**", "TLS Client Certs/**", "Timeouts/HTTPVersion:%s/**" % missing_v]
         runs = [
             dict(id="ref-server-deep", mode="server", config=refcfg, command=[bins["referenceserver"]], knownFailing=kf_s, skip=[], run=[], maxServers=16, lane=0),
             dict(id="ref-client-deep", mode="client", config=refcfg, command=[bins["referenceclient"]], knownFailing=kf_c, skip=[], run=[], maxServers=16, lane=0),
@@ -114,7 +114,7 @@ def run(ctx):
     ctx.sample(dict(run=recs[0]["id"], first_cases=recs[0]["cases"][:3], output=(recs[0].get("output") or [])[-3:]))
     ctx.cov["rule"] = ("the five Go-peer runs of `make runconformance` (reference server, reference client, gRPC server, gRPC-Web server, gRPC client; "
                        "shipped configs and known-failing lists, HTTP tracing on) through the in-package run() against the built peer binaries; "
-                       "quick = all suites on a reduced matrix (two compressions, two HTTP versions, rotating with the seed) plus the complete matrix on a slice of the suites (Basic, Errors; Server/Client Message Size for every version, protocol and compression with the proto codec and no TLS; Timeouts for the HTTP version the reduced matrix leaves out); every permutation is one evaluation (all are real RPCs); "
+                       "quick = all suites on a reduced matrix (two compressions, two HTTP versions, rotating with the seed) plus the complete matrix on a slice of the suites (Basic, Errors, TLS Client Certs; Server/Client Message Size for every version, protocol and compression with the proto codec and no TLS; Timeouts for the HTTP version the reduced matrix leaves out); every permutation is one evaluation (all are real RPCs); "
                        "each run is accepted by Trace_Matrix iff verdict ok, outcome names = selected names, and Success() of VerdictDecl.")
     ctx.assumptions += ["the browser gRPC-Web client run needs npm and is not executed",
                         "selected names are computed with the runner's own library code (the planner is C06-C08's subject)",
